@@ -64,6 +64,7 @@ SPECS = {
     },
     "f62": {
         "file": F62, "out": "F62.lean", "namespace": "Wf.Gen.F62", "elem": "u64",
+        "imports": ["Wf.Model.While"],
         "consts": ["M", "R2", "R3", "U"],
         "fns": [
             {"name": "add", "anchor": "impl Deserializable for BaseElement", "mode": "kernel"},
@@ -73,6 +74,10 @@ SPECS = {
             {"name": "new", "anchor": "impl BaseElement", "mode": "kernel"},
             {"name": "double", "anchor": "impl FieldElement for BaseElement", "mode": "kernel"},
             {"name": "as_int", "anchor": "impl StarkField for BaseElement", "mode": "kernel"},
+            {"name": "neg", "anchor": "impl Neg for BaseElement", "mode": "kernel"},
+            {"name": "eq", "anchor": "impl PartialEq for BaseElement", "mode": "kernel"},
+            # binary extended Euclid: nested `while` loops, each bounded by 256 iterations in the translation
+            {"name": "inv", "anchor": "impl Deserializable for BaseElement", "mode": "kernel", "fuel": 256},
             {"name": "mul", "anchor": "impl ExtensibleField<2> for BaseElement", "mode": "formula", "lean": "ext2Mul", "key": "ext2_mul"},
             {"name": "mul_base", "anchor": "impl ExtensibleField<2> for BaseElement", "mode": "formula", "lean": "ext2MulBase", "key": "ext2_mul_base"},
             {"name": "frobenius", "anchor": "impl ExtensibleField<2> for BaseElement", "mode": "formula", "lean": "ext2Frobenius", "key": "ext2_frobenius"},
@@ -96,6 +101,8 @@ SPECS = {
             {"name": "sub", "anchor": "impl Deserializable for BaseElement", "mode": "kernel"},
             {"name": "mul", "anchor": "impl Deserializable for BaseElement", "mode": "kernel"},
             {"name": "new", "anchor": "impl BaseElement", "mode": "kernel"},
+            {"name": "neg", "anchor": "impl Neg for BaseElement", "mode": "kernel"},
+            {"name": "as_int", "anchor": "impl StarkField for BaseElement", "mode": "kernel"},
             {"name": "mul", "anchor": "impl ExtensibleField<2> for BaseElement", "mode": "formula", "lean": "ext2Mul", "key": "ext2_mul"},
             {"name": "mul_base", "anchor": "impl ExtensibleField<2> for BaseElement", "mode": "formula", "lean": "ext2MulBase", "key": "ext2_mul_base"},
             {"name": "frobenius", "anchor": "impl ExtensibleField<2> for BaseElement", "mode": "formula", "lean": "ext2Frobenius", "key": "ext2_frobenius"},
